@@ -32,6 +32,9 @@ def run(rep, tier):
     tolerance_consistency(rep, F)
     rdp_metric(rep, F)
     recompute(rep, F)
+    # the metric of Douglas-Peucker: Distance<Coord, &Line> must be the distance to the SEGMENT (numeric table shared with C07)
+    from . import c07
+    c07.small_pair_tables(rep, F, rule="R9.9", only={"Coord-Line"})
 
 
 ENTRIES = [
